@@ -281,7 +281,7 @@ fn chunking<F: Family>(report: &Report, tier: Tier, key: &[u8; 40], kr: &KeyResu
                 let mut rm = refmodel::cipher::Recurrence { key: rk.clone(), n: es.1 as usize, prev: es.2 };
                 let mut r = p.clone();
                 rm.enc(&mut r);
-                if a != b || whole != single || a != r {
+                if a != b || !(whole == single || crate::ciphers::same_future(&whole, &single, 96, |o, d| F::enc(o, d))) || a != r {
                     viol::<F>(report, "chunking-encrypt", "one-call-vs-bytewise", key, json!({"pos": es.1, "prev": es.2, "len": l, "data": hex(&p)}),
                         format!("whole={} bytewise={} reference={} objects_equal={}", hex(&a), hex(&b), hex(&r), whole == single));
                 }
@@ -299,7 +299,7 @@ fn chunking<F: Family>(report: &Report, tier: Tier, key: &[u8; 40], kr: &KeyResu
                 let mut rm = refmodel::cipher::Recurrence { key: rk.clone(), n: ds.1 as usize, prev: ds.2 };
                 let mut r = p.clone();
                 rm.dec(&mut r);
-                if a != b || whole != single || a != r {
+                if a != b || !(whole == single || crate::ciphers::same_future(&whole, &single, 96, |o, d| F::dec(o, d))) || a != r {
                     viol::<F>(report, "chunking-decrypt", "one-call-vs-bytewise", key, json!({"pos": ds.1, "prev": ds.2, "len": l, "data": hex(&p)}),
                         format!("whole={} bytewise={} reference={} objects_equal={}", hex(&a), hex(&b), hex(&r), whole == single));
                 }
@@ -354,7 +354,7 @@ fn chunking<F: Family>(report: &Report, tier: Tier, key: &[u8; 40], kr: &KeyResu
                     F::dec(&mut d, &mut back[off..off + l]);
                     off += l;
                 }
-                if buf != expect || e != e_ref || back != data || d != d_ref {
+                if buf != expect || !(e == e_ref || crate::ciphers::same_future(&e, &e_ref, 96, |o, x| F::enc(o, x))) || back != data || !(d == d_ref || crate::ciphers::same_future(&d, &d_ref, 96, |o, x| F::dec(o, x))) {
                     viol::<F>(report, "chunking-compositions", "composition", key,
                         json!({"pos": es.1, "prev": es.2, "data": hex(&data), "sender_calls": comp, "receiver_calls": rcomp, "empty_calls": with_empty}),
                         format!("ciphertext={} expected={} recovered={} enc_obj_eq={} dec_obj_eq={}", hex(&buf), hex(&expect), hex(&back), e == e_ref, d == d_ref));
